@@ -40,58 +40,83 @@ def lemma_ident(rep, F, L):
     v = vm[0]
     body = v.body
     stmts = body.get("stmts", [])
-    # locate the scan loop, the parse call and the final Ok(Detection{..})
-    loop_i = parse_i = solv_i = None
+    # the identifier scan: the statements between `let tokens = tokenise(..)` and the parse call, evaluated as a model over every
+    # token vector of length <= 4 whose tokens are: a known identifier, an unknown identifier, a modifier (int(/not(), anything else.
+    # Loading must fail exactly when some identifier is unknown and is not the operand of a modifier (the token two places back).
+    import itertools
+    import tri
     pcalls = [x for x in walk(body) if call_is(x, "parser::parse")]
     tokens_id = q.base_var(pcalls[0]["args"][0]) if len(pcalls) == 1 else None
-    for i, s in enumerate(stmts):
-        e = s["e"] if s["k"] == "Expr" else s.get("init")
-        if e is None:
-            continue
-        if s["k"] == "Expr" and unblock(e).get("k") == "For" and tokens_id is not None and q.loop_over(unblock(e))[0] == tokens_id:
-            loop_i = i
-        if any(call_is(x, "parser::parse") for x in walk(e)):
+    tok_i = parse_i = None
+    for i, s_ in enumerate(stmts):
+        e = s_["e"] if s_["k"] == "Expr" else s_.get("init")
+        if s_["k"] == "Let" and tokens_id is not None and any(b_[1] == tokens_id for b_ in facts.pat_binds(s_["pat"])):
+            tok_i = i
+        if e is not None and any(call_is(x, "parser::parse") for x in walk(e)):
             parse_i = i
-        if any(call_is(x, "Expression::is_solvable") for x in walk(e)):
-            solv_i = i
     fin = body.get("expr")
     okfin = bool(fin) and facts.adt_is(peel(fin), "Result", "Ok") and "Detection" in show(fin)
-    chk(rep, L, "L-IDENT", loop_i is not None and parse_i is not None and loop_i < parse_i and okfin, "L-IDENT/scan-dominates", v.sp,
-        "the identifier scan over `tokens` runs before parse and before Ok(Detection)", "loop@%s parse@%s" % (loop_i, parse_i))
-    if loop_i is None:
+    okdom = tok_i is not None and parse_i is not None and tok_i < parse_i and okfin
+    chk(rep, L, "L-IDENT", okdom, "L-IDENT/scan-dominates", v.sp, "the identifier scan sits between tokenising and parsing the condition, before Ok(Detection)", "tokens@%s parse@%s" % (tok_i, parse_i))
+    if not okdom:
         return
-    loop = unblock(stmts[loop_i]["e"])
-    tok_id = strip_ref(q.loop_over(loop)[1]).get("id")
-    # the check itself
-    found = False
-    for n in walk(loop["body"]):
-        if n.get("k") == "If" and peel(n["cond"]).get("k") == "LetCond":
-            lc = peel(n["cond"])
-            if variant_of(lc["pat"]) == ("Token", "Identifier") and q.var_id(lc["arg"]) == tok_id:
-                idv = strip_ref(subpat(lc["pat"], 0)).get("id")
-                for m in walk(n["then"]):
-                    if m.get("k") == "If":
-                        c = peel(m["cond"])
-                        if c.get("k") == "Unary" and c["op"] == "Not" and call_is(peel(c["arg"]), "::contains_key") and show(peel(c["arg"])["args"][0]) == "identifiers" and q.var_id(peel(c["arg"])["args"][1]) == idv:
-                            rets = [x for x in walk(m["then"]) if x.get("k") == "Return" and facts.adt_is(peel(x["value"]), "Result", "Err")]
-                            found = bool(rets)
-    chk(rep, L, "L-IDENT", found, "L-IDENT/unknown-rejected", loop["sp"], "an Identifier token that is not a key of `identifiers` makes loading fail", "")
-    # skip discipline: only after a Modifier two tokens back, and the index advances exactly once per iteration
-    ctr = q.counter_of(body, loop, exact=True)
-    chk(rep, L, "L-IDENT", ctr is not None, "L-IDENT/index-in-step", loop["sp"],
-        "the position counter advances exactly once on every path through the loop body (so tokens[i-2] is the token two back)", str(ctr))
+    scan = stmts[tok_i + 1:parse_i]
+    # the map consulted is the one stored as Detection.identifiers
+    det = peel(peel(fin)["fields"][0]["e"])
+    ids_id = q.var_id({f_["name"]: f_["e"] for f_ in det["fields"]}.get("identifiers")) if det.get("k") == "Adt" else None
+    cks = [x for s_ in scan for part in (s_.get("e"), s_.get("init"), s_.get("else")) if part is not None for x in walk(part) if call_is(x, "::contains_key")]
+    okmap = bool(cks) and all(q.base_var(x["args"][0]) == ids_id for x in cks)
 
-    def two_back(e):
-        for x in walk(e):
-            if x.get("k") == "Call" and call_is(x, "Index::index") and len(x["args"]) == 2 and q.var_id(x["args"][0]) == tokens_id:
-                ix = peel(x["args"][1])
-                if ctr and ix.get("k") == "Binary" and ix["op"] == "Sub" and q.var_id(ix["lhs"]) == ctr["id"] and lit(ix["rhs"]) == ("i", 2):
-                    return True
-        return False
-    skips = [n for n in walk(loop["body"]) if n.get("k") == "If" and peel(n["cond"]).get("k") == "LetCond" and two_back(peel(n["cond"])["arg"])]
-    okskip = len(skips) == 1 and variant_of(peel(skips[0]["cond"])["pat"]) == ("Token", "Modifier")
-    nconts = ctr["continues"] if ctr else -1
-    chk(rep, L, "L-IDENT", okskip and nconts == 1 and len([x for x in walk(skips[0]["then"]) if x.get("k") == "Continue"]) == 1, "L-IDENT/skip-only-cast-fields", loop["sp"], "a token is exempt only when the token two places back is a cast/not modifier (its operand is a field name)", "; ".join(pat_str(peel(s["cond"])["pat"]) for s in skips))
+    KN, UN = ("lit", "known"), ("lit", "unknown")
+    TOK = {"k": ("ctor", "Token", "Identifier", [KN]), "u": ("ctor", "Token", "Identifier", [UN]), "m": ("ctor", "Token", "Modifier", [("ctor", "ModSym", "Int", [])]),
+           "n": ("ctor", "Token", "Modifier", [("ctor", "ModSym", "Not", [])]), "o": ("ctor", "Token", "Delimiter", [("ctor", "DelSym", "LeftParenthesis", [])])}
+
+    def h_contains(mo, n, env):
+        v_ = mo.ev(n["args"][1], env)
+        if v_ == KN:
+            return True
+        if v_ == UN:
+            return False
+        raise tri.Unrecognised("contains_key(%r)" % (v_,))
+    calls = {"::contains_key": h_contains, "Error::custom": lambda mo, n, env: tri.OPAQUE, "::iter": lambda mo, n, env: mo.ev(n["args"][0], env),
+             "Deref::deref": lambda mo, n, env: mo.ev(n["args"][0], env)}
+    wrong_accept, wrong_reject = [], []
+    lost = None
+    try:
+        for ln in range(0, 5):
+            for vec in itertools.product("kumno", repeat=ln):
+                want_err = any(t == "u" and not (p_ >= 2 and vec[p_ - 2] in "mn") for p_, t in enumerate(vec))
+                mo = tri.Model(lambda i: None, calls=calls)
+                env = {tokens_id: ("list", [TOK[t] for t in vec])}
+                got_err = False
+                try:
+                    for s_ in scan:
+                        if s_["k"] == "Let":
+                            val = mo.ev(s_["init"], env) if s_.get("init") is not None else None
+                            if not mo.bind(s_["pat"], val, env):
+                                raise tri.Unrecognised("let pattern in the scan")
+                        else:
+                            mo.ev(s_["e"], env)
+                except tri.Ret as r_:
+                    got_err = isinstance(r_.v, tuple) and len(r_.v) >= 3 and r_.v[0] == "ctor" and r_.v[2] == "Err"
+                    if not got_err:
+                        raise tri.Unrecognised("the scan returns something other than Err: %r" % (r_.v,))
+                if want_err and not got_err:
+                    wrong_accept.append("".join(vec))
+                if got_err and not want_err:
+                    wrong_reject.append("".join(vec))
+    except tri.Unrecognised as e_:
+        lost = str(e_)[:200]
+    if lost:
+        rep.lost("L-IDENT", "L-IDENT/unknown-rejected", "identifier scan inside the model language", lost)
+        L.ok["L-IDENT"] = False
+    else:
+        chk(rep, L, "L-IDENT", okmap and not wrong_accept, "L-IDENT/unknown-rejected", stmts[tok_i]["sp"] if stmts[tok_i].get("sp") else v.sp,
+            "every token vector (length <= 4) with an unknown identifier that is not a cast/not operand makes loading fail; the map consulted is Detection.identifiers",
+            ("accepted: " + ", ".join(wrong_accept[:6])) if wrong_accept else ("contains_key on another map" if not okmap else ""))
+        chk(rep, L, "L-IDENT", not wrong_reject, "L-IDENT/skip-only-cast-fields", v.sp, "a token is exempt exactly when the token two places back is a cast/not modifier: nothing else is skipped, nothing known is rejected",
+            "rejected: " + ", ".join(wrong_reject[:6]))
+        rep.ok("L-IDENT", "L-IDENT/index-in-step", v.sp, "positions are those of the token vector (evaluated: the scan's own counter or enumerate index against 781 vectors)")
     # (ii) Identifier nodes are built only by parse_nud
     where = {}
     for name, f in F.fns.items():
